@@ -5,6 +5,7 @@
   is new): with `P i := i is a char boundary of the source` this is char-boundary alignment, with
   `P i := i ≤ len` it is C17_inside / C17_errors again.
 -/
+import XotModel.Lemmas.ParseQName
 import XotModel.Lemmas.ParseSpans
 
 namespace XotModel
@@ -389,12 +390,12 @@ theorem cdata_ends {P : Nat → Prop} {b : Builder} (h : SpansEnds P b) {t : Str
     rw [h1]
     exact SpanMap.extendText_allEnds h.1 _ (StrSpan.span_endsIn ht)
 
-theorem step_ends {P : Nat → Prop} {b : Builder} (h : SpansEnds P b) (t : Token) (ht : t.Inner P) :
-    StepEnds P (b.step t) := by
+theorem stepCore_ends {P : Nat → Prop} {b : Builder} (h : SpansEnds P b) (t : Token) (ht : t.Inner P) :
+    StepEnds P (b.stepCore t) := by
   cases t with
   | «attribute» p l v sp =>
     obtain ⟨hp, hl, hv, _⟩ := ht
-    simp only [Builder.step]
+    simp only [Builder.stepCore]
     split
     · exact prefix_ends h _ hv (fromPrefixName_endsIn hp hl)
     · split
@@ -413,7 +414,7 @@ theorem step_ends {P : Nat → Prop} {b : Builder} (h : SpansEnds P b) (t : Toke
     | «open» => exact openElement_ends h
     | close p l => exact closeElement_ends h ht.1 ht.2.1 ht.2.2
     | empty =>
-      simp only [Builder.step]
+      simp only [Builder.stepCore]
       have ho := openElement_ends h
       split
       · rename_i b1 h1
@@ -429,7 +430,7 @@ theorem step_ends {P : Nat → Prop} {b : Builder} (h : SpansEnds P b) (t : Toke
     exact SpanMap.add_allEnds h.1 _ (StrSpan.span_endsIn ht.1)
   | pi target content sp =>
     obtain ⟨ht1, ht2, _⟩ := ht
-    simp only [Builder.step]
+    simp only [Builder.stepCore]
     split
     · exact StrSpan.span_endsIn ht1
     refine ⟨?_, h.2⟩
@@ -439,7 +440,7 @@ theorem step_ends {P : Nat → Prop} {b : Builder} (h : SpansEnds P b) (t : Toke
     | none => exact h1
     | some c => exact SpanMap.add_allEnds h1 _ (StrSpan.span_endsIn (ht2 c rfl))
   | declaration v e s sp =>
-    simp only [Builder.step]
+    simp only [Builder.stepCore]
     split
     · exact StrSpan.span_endsIn ht.1
     · exact h
@@ -447,6 +448,14 @@ theorem step_ends {P : Nat → Prop} {b : Builder} (h : SpansEnds P b) (t : Toke
   | dtdEnd sp => exact StrSpan.span_endsIn ht
   | emptyDtd sp => exact StrSpan.span_endsIn ht
   | entityDecl sp => exact StrSpan.span_endsIn ht
+
+theorem step_ends {P : Nat → Prop} {b : Builder} (h : SpansEnds P b) (t : Token) (ht : t.Inner P) :
+    StepEnds P (b.step t) := by
+  refine b.step_cases t (fun _ => stepCore_ends h t ht) ?_
+  intro p l hq _
+  have hpl : p.Inner P ∧ l.Inner P := by
+    rcases Token.qname_elim hq with ⟨v, sp, rfl⟩ | ⟨sp, rfl⟩ | ⟨sp, rfl⟩ <;> exact ⟨ht.1, ht.2.1⟩
+  exact ⟨hpl.1.start, hpl.2.stop⟩
 
 theorem run_ends {P : Nat → Prop} (ts : List Token) (lexErr : Option Nat) (hlex : ∀ p, lexErr = some p → P p) :
     ∀ {b : Builder}, SpansEnds P b → (∀ t ∈ ts, t.Inner P) → StepEnds P (b.run ts lexErr) := by
